@@ -80,7 +80,9 @@ func (e *abortErr) Error() string {
 // writeErr is the failure of one client's own connection while the response is written to it.
 type writeErr struct{ pid int }
 
-func (e *writeErr) Error() string { return fmt.Sprintf("write tcp (client of p%d): i/o timeout", e.pid) }
+func (e *writeErr) Error() string {
+	return fmt.Sprintf("write tcp (client of p%d): i/o timeout", e.pid)
+}
 
 // deadlineCtx is a request context whose own deadline "expires" when the harness says so:
 // Done closes and Err is context.DeadlineExceeded (the inner context is a plain cancel context).
@@ -475,15 +477,15 @@ func (r *rig) request(ctx context.Context, layer, opType string, k Key, alt bool
 
 // outcome is what one participant observed.
 type outcome struct {
-	Returned bool   `json:"returned"`
-	Panic    string `json:"panic,omitempty"`
-	Stack    string `json:"-"`
-	Out      string `json:"out"` // what the engine handed to the client's writer
-	Delivered string `json:"-"`  // what the writer accepted (empty when the client's connection failed)
-	Err      string `json:"err,omitempty"`
-	err      error
-	Dedup    bool `json:"dedup"`
-	subErr   error
+	Returned  bool   `json:"returned"`
+	Panic     string `json:"panic,omitempty"`
+	Stack     string `json:"-"`
+	Out       string `json:"out"` // what the engine handed to the client's writer
+	Delivered string `json:"-"`   // what the writer accepted (empty when the client's connection failed)
+	Err       string `json:"err,omitempty"`
+	err       error
+	Dedup     bool `json:"dedup"`
+	subErr    error
 }
 
 // alone runs one request on a fresh resolver with nothing else in flight.
